@@ -231,6 +231,19 @@ func runC14(c *Ctx) {
 			}
 		}
 	}
+	// bounds of more than one digit (and with unequal digits): the count is read as a decimal number
+	if c.Level("fixed:two-digit bounds") {
+		var long []string
+		for k := 0; k <= 26; k++ {
+			long = append(long, strings.Repeat("a", k), strings.Repeat("a", k)+"b", "b"+strings.Repeat("ab", k))
+		}
+		for _, rs := range []string{"a{10}", "a{12}", "a{2,10}", "a{10,}", "a{10,12}", "a{12,21}b", "(ab){11}", "a{10}?", "a{1,10}?b", "(a{2}){10}", "a{20}", "a{13,}b", "[ab]{15}", "a{0,10}", "a{9,11}"} {
+			rs := rs
+			if c.Unit(func() string { return "@/" + rs + "/" }) {
+				c14Unit(c, RX{S: rs, N: 3}, long)
+			}
+		}
+	}
 	gr := newRxGram(true)
 	t4 := texts("ab\n", 4)
 	for n := 1; n <= c.Pick(4, 5); n++ {
